@@ -92,6 +92,7 @@ def s_obstacle(tier):
         st.tuples(st.sampled_from(["tr-obstacle", "tr-prediction", "tr-scenario"]), motion),
         st.tuples(st.just("set-trajectory"), new_traj),
         st.tuples(st.just("set-shape"), gg.any_shape(centered=True)),
+        st.tuples(st.just("append-state"), translation(20), st.integers(1, 3)),
         st.tuples(st.just("update-prediction"), st.one_of(st.none(), new_traj, gs.occupancies_simple())),
         st.tuples(st.just("update-initial-state"), gg.exact_state("InitialState", 0), st.integers(1, 4),
                   st.one_of(st.none(), gs.signal_recipe(0)), st.one_of(st.none(), st.lists(st.integers(1, 9), max_size=3))),
@@ -152,6 +153,17 @@ def check_obstacle(r, ctx):
                         ctx.label("op-skipped")
                         continue
                     ob.prediction.trajectory = gg.build_trajectory(op[1])
+                elif kind == "append-state":
+                    # the predicted trajectory grows through its public append_state (a later state of the same kind)
+                    if not isinstance(ob.prediction, TrajectoryPrediction):
+                        ctx.label("op-skipped")
+                        continue
+                    last = ob.prediction.trajectory.final_state
+                    new_state = copy.deepcopy(last)
+                    new_state.time_step = last.time_step + 1
+                    if isinstance(getattr(new_state, "position", None), np.ndarray):
+                        new_state.position = new_state.position + np.array(op[1], dtype=float)
+                    ob.prediction.trajectory.append_state(new_state)
                 elif kind == "set-shape":
                     if not isinstance(ob.prediction, TrajectoryPrediction):
                         ctx.label("op-skipped")
@@ -187,7 +199,7 @@ def check_obstacle(r, ctx):
                     ctx.label("history-len-%d" % min(len(ob.history), 4))
             ctx.label("op-" + kind)
             fresh = rebuild_obstacle(ob)
-            for t in range(0, 11):
+            for t in range(0, 15):
                 same_occupancy(ob.occupancy_at_time(t), fresh.occupancy_at_time(t), "obstacle-after-" + kind, t)
                 same_state(ob.state_at_time(t), fresh.state_at_time(t), "obstacle-after-" + kind, t)
     if q_m_q or (queried and mutated_after_query):
